@@ -17,7 +17,8 @@ SMids   == {"0", "1", "2", "5", "a", "audio0"}
 SDirs   == {"sendrecv", "sendonly", "recvonly", "inactive", "absent"}
 \* "renumbered*": the peer's payload-type numbering collides with the local one (its 98/99 are VP8 and
 \* the RTX of that VP8, locally they are VP9 and VP9's RTX)
-SCodecs == {"supported", "unsupported", "mixed", "subset", "renumbered", "renumbered2"}
+\* "twice": one codec listed under two payload types
+SCodecs == {"supported", "unsupported", "mixed", "subset", "renumbered", "renumbered2", "twice"}
 \* "video-prefs-*": a video transceiver with SetCodecPreferences (primary + RTX pairs, local numbering)
 Pre     == {"none", "audio-sendrecv-track", "video-recvonly", "audio+video-tracks", "two-video",
             "video-prefs-vp9rtx", "video-prefs-vp8rtx-h264", "video-prefs-rtxfirst",
